@@ -276,7 +276,9 @@ func (s *BaseVisitor) EnterOC_RelationshipPropertyExistenceConstraint(c *parser.
 func (s *BaseVisitor) EnterOC_RelationshipPatternSyntax(c *parser.OC_RelationshipPatternSyntaxContext) {
 }
 
-func (s *BaseVisitor) EnterOC_LoadCSV(c *parser.OC_LoadCSVContext) {}
+func (s *BaseVisitor) EnterOC_LoadCSV(c *parser.OC_LoadCSVContext) {
+	s.newUnsupportedRuleError(c)
+}
 
 func (s *BaseVisitor) EnterOC_Match(c *parser.OC_MatchContext) {}
 
